@@ -280,6 +280,14 @@ fn directed() -> Vec<Case> {
     // N12 (repaired by c724280; regression case, swept over every offset: expected outcome = no panic):
     // a sink failure during a flush in the middle of the last row, then a narrower frame
     v.push(mk("w=2,h=1,c=0,d=8,an=2:0,comp=0,filt=0", "-", "X4[sz1:1,w01,f,w02,f,w03]F", "directed"));
+    // a frame rectangle set BEFORE the first image: refused for the first image whether it is an animation frame or a separate
+    // default image (the rectangle decides the size of every image); whole-image call and both stream writers (seeded C19_6)
+    for sep in [0, 1] {
+        let c = format!("w=2,h=2,c=0,d=8,an=2:0,sep={}", sep);
+        v.push(mk(&c, "sz1:1;I07;I01020304;I05060708;I090a0b0c", "F", "directed"));
+        v.push(mk(&format!("{},val=1", c), "sz1:2;sp1:0;S64[w0708]F;I01020304;I05060708;I090a0b0c", "F", "directed"));
+        v.push(mk(&c, "sz2:1", "X64[w0708,w01020304,w05060708,w090a0b0c]F", "directed"));
+    }
     // sessions that end in the middle of an image (N10 / remainder of N11: open)
     v.push(mk(g, "S64[w0102]D;I01020304", "F", "directed"));
     v.push(mk(a, "I01020304;S64[]D;I05060708", "F", "directed"));
